@@ -404,3 +404,37 @@ def continuity_shape(cx):
             # an unwrap of last()/first() without the matching non-empty test would be a panic
             ok = ok and v == ("bool", True) and not uses_last and not uses_first
     cx.check(ok and both == 1, "continuous", "is_continuous_ents(msg, ents) = both non-empty ⇒ msg.entries.last().index + 1 == ents[0].index, else true (found %s)" % "; ".join(show(v)[:80] for _, v, _ in rets)[:260])
+
+
+@obligation("LOGGUARD.range_check", ["C14", "C19", "C20"], floor=2, kind="return shape",
+            why="range reads must be bounded by the LOGICAL first index (which a pending snapshot moves) and last index; a check against the stable storage alone serves stale or missing entries while a snapshot is pending")
+def range_check(cx):
+    f = cx.fn("RaftLog::must_check_outofbounds")
+    rets = cx.pg(f).returns()
+
+    def log_first(e):
+        return e[0] == "call" and e[1].endswith("RaftLog::first_index")
+
+    def below_first(l, want):
+        return l[0] == "is" and l[2] is want and l[1][0] == "bin" and l[1][1] == "Lt" and l[1][2][0] == "param" and (log_first(l[1][3]) or log_first(cx.prog.inline_wrappers(l[1][3])))
+    ok = bool(rets)
+    kinds = set()
+    for lits, v, _ in rets:
+        if v[0] == "adt" and v[1].endswith("Option::Some") and any(x[0] in ("enum", "adt") and str(x[1]).endswith("Compacted") or (x[0] == "enum" and x[2] == "Compacted") for x in walk(v)):
+            ok = ok and any(below_first(l, True) for l in lits)
+            kinds.add("compacted")
+        elif v == ("enum", "core::option::Option", "None"):
+            upper = any(l[0] == "is" and l[2] is False and l[1][0] == "bin" and l[1][1] == "Lt" and l[1][3][0] == "param" and any(x[0] == "call" and x[1].endswith("RaftLog::last_index") for x in walk(l[1][2])) for l in lits)
+            ok = ok and any(below_first(l, False) for l in lits) and upper
+            kinds.add("ok")
+        else:
+            ok = False
+    cx.check(ok and kinds == {"compacted", "ok"}, "bounds", "must_check_outofbounds(low, high): Compacted iff low < self.first_index() (the log's, not the store's); accepted only if also high <= last_index() + 1 (found %s)" % "; ".join("%s if %s" % (show(v)[:40], [show_lit(l)[:60] for l in lits]) for lits, v, _ in rets)[:400])
+    # last_term() = term(last_index())
+    f = cx.fn("RaftLog::last_term")
+    rets = cx.pg(f).returns()
+    ok = bool(rets)
+    for lits, v, _ in rets:
+        okv = any(x[0] == "call" and x[1].endswith("RaftLog::term") and len(x[2]) == 2 and x[2][1][0] == "call" and x[2][1][1].endswith("RaftLog::last_index") for x in walk(v)) and v[0] in ("vfield", "call")
+        ok = ok and okv
+    cx.check(ok, "last_term", "last_term() = term(last_index()) through the log's own term() (which knows a pending snapshot) (found %s)" % "; ".join(show(v)[:80] for _, v, _ in rets)[:200])
